@@ -62,7 +62,7 @@ class Probe(torch.nn.Module):
     def forward(self, X, *args):
         ids = (X.double().argmax(1) * (4 ** torch.arange(L))).sum(1).long().tolist()
         aids = [a.reshape(a.shape[0], -1)[:, 0].long().tolist() for a in args]
-        self.log.append(dict(training=self.training, grad=torch.is_grad_enabled(), ids=ids, aids=aids,
+        self.log.append(dict(training=any(m.training for m in self.modules()), grad=torch.is_grad_enabled(), ids=ids, aids=aids,
                              x_dtype=str(X.dtype)))
         x = X.double().reshape(X.shape[0], -1)
         if self.kind == "paramfree":
@@ -102,9 +102,20 @@ def check_one(rec, model0, n, b, nargs, seed, as_tuple=False):
     X, args, ids = make_inputs(n, nargs)
     Xc, argsc = X.clone(), [a.clone() for a in args]
     model = copy.deepcopy(model0)
-    model.train()
+    # mode history of the model before the call: everything in training mode / root switched to eval but a sub-module put back
+    # into training mode (e.g. a freshly swapped-in head) / root in training mode with eval sub-modules
+    mode = ("all_train", "root_eval_sub_train", "root_train_sub_eval")[(n + b + nargs) % 3]
+    if mode == "all_train":
+        model.train()
+    elif mode == "root_eval_sub_train":
+        model.eval()
+        for m in list(model.modules())[1:]:
+            m.train()
+    else:
+        model.eval()
+        model.training = True
     model.log = []
-    case = dict(fn="predict", n=n, batch_size=b, n_args=nargs, out=model.out, model=model.kind)
+    case = dict(fn="predict", n=n, batch_size=b, n_args=nargs, out=model.out, model=model.kind, mode_before=mode)
     a_in = None if nargs == 0 else (tuple(args) if as_tuple else list(args))
     st, y = call(predict, model, X, args=a_in, batch_size=b, device="cpu")
     rec.case(1, int(b < n or nargs > 0))
